@@ -7,7 +7,7 @@
    2. Set level: uscxml_step() (ChartToC::writeFSM) over the flat chart of Chart.v with the ascending lists of
       Fast.v standing for the bit arrays.  The template is FastMicroStep::step with these variant points:
         - `children` are the direct children written by ChartToC::prepare (fast engine: all descendants);
-        - a compound's deep completion adds the ancestors of the first completion state only, and only when no
+        - a compound's deep completion adds the ancestors of every completion state (since fix f35c407f; before: of the first one only), and only when no
           completion state is a direct child;
         - history completions come from ChartToC::setHistoryCompletion (states claimed by the histories of an
           earlier parent are left out; a deep history with other histories below its parent adds the history
